@@ -149,9 +149,14 @@ def daysInMonth (y m : Nat) : Nat :=
 
 /-- the check the libraries apply to scanned fields before they build a value: ranges and the
 calendar validity of the day (30 February, 29 February of a common year … are rejected) -/
-def fieldsInRange (f : Fields) : Bool :=
+def fieldsInRangeH (maxOffH : Nat) (f : Fields) : Bool :=
   1 ≤ f.month && f.month ≤ 12 && 1 ≤ f.day && f.day ≤ daysInMonth f.year f.month
-    && f.hour < 24 && f.minute < 60 && f.second < 60 && f.offH < 24 && f.offM < 60
+    && f.hour < 24 && f.minute < 60 && f.second < 60 && f.offH < maxOffH && f.offM < 60
+
+/-- chrono: `FixedOffset` is strictly within ±24:00 -/
+def fieldsInRange (f : Fields) : Bool := fieldsInRangeH 24 f
+/-- jiff `Offset` and time `UtcOffset` reach ±25:59:59 (outside the property's ±23:59 both behave alike) -/
+def fieldsInRangeWide (f : Fields) : Bool := fieldsInRangeH 26 f
 
 /-! ### instants (civil/epoch arithmetic is the libraries'; executable here for protocol replies and for
 the reading of `with_timezone`, nothing is proved about it) -/
@@ -209,8 +214,12 @@ structure DateLib where
 def specLib : DateLib where
   strftime fmt f := renderToks f (tokStrftime fmt)
   timeFormat fmt f := renderToks f (tokTimeFd fmt none)
-  strptime zOk fmt s := (parseToks zOk (tokStrftime fmt) zeroFields s).bind fun f => if fieldsInRange f then some f else none
-  timeParse fmt s := (parseToks false (tokTimeFd fmt none) zeroFields s).bind fun f => if fieldsInRange f then some f else none
+  strptime zOk fmt s := (parseToks zOk (tokStrftime fmt) zeroFields s).bind fun f =>
+    -- chrono and jiff scan a leap second `60` and hold it as second 59 (chrono: plus a second of nanoseconds,
+    -- which `timestamp()` does not show); outside the property — no producer prints 60
+    let f := if f.second = 60 then { f with second := 59 } else f
+    if (if zOk then fieldsInRange f else fieldsInRangeWide f) then some f else none
+  timeParse fmt s := (parseToks false (tokTimeFd fmt none) zeroFields s).bind fun f => if fieldsInRangeWide f then some f else none
   toOffset off f := fieldsOfEpoch (epochOf f) off
 
 /-! ### lopdf's own code -/
